@@ -692,7 +692,7 @@ func init() {
 
 func TestC20(t *testing.T) {
 	c := c20
-	c.Checks = n(8, 400)
+	c.Checks = n(8, 120)
 	c.Run(t)
 	if cfg.Shard == 0 {
 		extra := 6000
